@@ -416,8 +416,10 @@ def xstack (cfg : XCfg) (top : String) (layers : List J) : Except String J := do
       match packU none c with
       | .ok (c', cbs) =>
         let q := parseTop ck cbs
+        -- (bytes that lead the original parser into a class it does not model — an EtherType / protocol of the extended model
+        --  over an opaque payload — are compared on the pack side only)
         if cbs = bs ∧ (J.arr (chainJ c')).render = (J.arr (xchainJ p')).render
-            ∧ (hasUnmodelled q).isSome = false ∧ (J.arr (chainJ q)).render = (J.arr (xchainJ (xparseTop cfg k bs))).render
+            ∧ ((hasUnmodelled q).isSome = true ∨ (J.arr (chainJ q)).render = (J.arr (xchainJ (xparseTop cfg k bs))).render)
         then pure ans else throw "original and extended model disagree"
       | .error _ => throw "original and extended model disagree (pack)"
     | _, _ => pure ans
